@@ -57,6 +57,7 @@ SPEC = {
             "calls_stopped_by_rng_budget": 1,
             "evidence_gatherer_calls": 8000, "evidence_gatherer_conforms_preparation_": 50, "evidence_gatherer_conforms_transfer_": 30,
             "evidence_gatherer_unknown": 100, "evidence_gatherer_nonconforming": 5000,
+            "rebuilds_done": 150, "rebuilds_scheduled_across_an_expiry_period_boundary": 80,
         },
         "thorough": {
             "evaluations": 4_000_000_000, "distinct_nontrivial": 5000,
@@ -66,6 +67,7 @@ SPEC = {
             "wakeup_instances": 2_000_000, "wakeup_instances_with_brute_force_minimum": 1_500_000,
             "height_schedules": 2_000_000, "shuffles": 5_000_000,
             "evidence_gatherer_calls": 300_000, "evidence_gatherer_conforms_preparation_": 2000, "evidence_gatherer_conforms_transfer_": 1000,
+            "rebuilds_done": 10_000, "rebuilds_scheduled_across_an_expiry_period_boundary": 5000,
         },
     },
     "manifest": {
@@ -74,7 +76,7 @@ SPEC = {
                       "budgets for rejection loops, exhaustive enumeration of the classification evidence lattice and of all "
                       "ordered evidence pairs; overflow checks and debug assertions armed"),
         "text": ("Drawn delays, cumulative heights, expiries, shuffles, drawn and redrawn anchors, wake-up schedules and ZIP 318 "
-                 "labels were checked against independent oracles on millions of calls under random, biased and low-entropy "
+                 "labels were checked against independent oracles on millions of calls (and the expiry of transfers the engine rebuilds after re-opening real commits just below the end of an expiry period) under random, biased and low-entropy "
                  "RNG streams; classification monotonicity and 'no refutation without a negative observation' hold on the whole "
                  "evidence lattice. Held on everything executed; exhaustive on the lattice (and on all 2^32 expiry heights in "
                  "the thorough tier), sampled elsewhere."),
@@ -84,3 +86,18 @@ SPEC = {
                  "bundles and the decrypted outputs are fabricated; it never answers the confirmatory clauses."),
     },
 }
+
+
+def run(tier, seed, fold):
+    """The scheduling functions themselves (vh-pure c17) plus the one place outside them that computes an
+    expiry: the engine's rebuild of an expired transfer (real commits from vh-wallet's c18 fixtures,
+    re-opened just below the end of an expiry period)."""
+    import os
+    import driver
+    driver.standard_run(SPEC, tier, seed, fold)
+    bindir = driver.cargo_build("vh-wallet", ["c18"])
+    shards = driver.run_shards("C17", os.path.join(bindir, "c18"), 4 if tier == "quick" else 16, seed, tier,
+                               60 if tier == "quick" else 300,
+                               extra={"c17-rebuild": 1, "fixtures": 3 if tier == "quick" else 12, "rebuilds": 40 if tier == "quick" else 200},
+                               tag="rebuild")
+    fold.add_shards(shards, "rebuild")
